@@ -9,6 +9,7 @@
     `C07.shapeOk`          tree shapes the generator handles          (`GenShape`, `genShapeB`)
     `C07.skipTotalB`       executable form of `SkipTotal`
     `C07.onlyEOIB`         the only built-in in the table is EOI
+    `soiFree`, `soiFreeG`  no `SOI` anywhere in the rule bodies       (`SOIFree`, C16)
 
   The theorems that turn the Boolean forms into the propositions are in Props/C07.lean
   (`closed_of_closedB`, `genShape_of_genShapeB`, `skipTotal_of_skipTotalB`, `onlyEOI_of_onlyEOIB`).
@@ -25,6 +26,51 @@ def totalBody : Expr → Bool
   | .optChoice _ true => true
   | .skipUntil _ => true
   | _ => false
+
+
+/-! ### SOI-free expressions and grammars (hypothesis of C16) -/
+
+mutual
+/-- no `_SOI` body anywhere in the tree (the front end embeds `SOI` as `.rule "SOI" 2 true .soiB`) -/
+def soiFree : Expr → Bool
+  | .str _ => true
+  | .ci _ => true
+  | .range _ _ => true
+  | .ident _ _ => true
+  | .rule _ _ _ b => soiFree b
+  | .seq es => soiFreeL es
+  | .choice es => soiFreeL es
+  | .opt e => soiFree e
+  | .rep e => soiFree e
+  | .rep1 e => soiFree e
+  | .repExact e _ => soiFree e
+  | .repMin e _ => soiFree e
+  | .repMax e _ => soiFree e
+  | .repMinMax e _ _ => soiFree e
+  | .andP e => soiFree e
+  | .notP e => soiFree e
+  | .group e _ => soiFree e
+  | .push e => soiFree e
+  | .pushLit _ => true
+  | .peek => true
+  | .pop => true
+  | .drop => true
+  | .peekAll => true
+  | .popAll => true
+  | .peekSlice _ _ => true
+  | .anyB => true
+  | .soiB => false
+  | .eoiB => true
+  | .uprop _ => true
+  | .skipUntil _ => true
+  | .optChoice _ _ => true
+def soiFreeL : List Expr → Bool
+  | [] => true
+  | e :: es => soiFree e && soiFreeL es
+end
+
+/-- Bool version, for `decide` -/
+def soiFreeG (g : Grammar) : Bool := g.rules.all fun r => soiFree r.body
 
 
 namespace C07
